@@ -810,7 +810,7 @@ func init() {
 		Meta: func(c *core.Ctx) core.Meta {
 			return core.Meta{
 				Level: "exploration",
-				Rule: "all pairs (and all triples for the n-ary slice functions) of lists of length 0..L over 3 symbols plus nil (L=3 quick, 4 thorough; triples one shorter), all 81x81 pairs of key->stream maps with <=2 keys and streams of length <=2 (incl. nil stream pointers and empty streams), plus PRNG operand tuples, plus all pairs of lists of length <= 2 (and a few longer) whose elements are POINTERS, among them distinct pointers with equal contents and a nil pointer (element equality is identity in both families; oracle = the same operation on the element ids), plus lists of MIXED dynamic types (1, int64(1), 1.0, the string 1, nil, ...) through the interface{} family; " +
+				Rule: "all pairs (and all triples for the n-ary slice functions) of lists of length 0..L over 3 symbols plus nil (L=3 quick, 4 thorough; triples one shorter), all 81x81 pairs of key->stream maps with <=2 keys and streams of length <=2 (incl. nil stream pointers and empty streams), plus PRNG operand tuples, plus all pairs of lists of length <= 2 (and a few longer) whose elements are POINTERS, among them distinct pointers with equal contents and a nil pointer (element equality is identity in both families; oracle = the same operation on the element ids), plus MapSet operations whose operand is ANOTHER implementation of SetDef, plus n-ary calls with 3..300 operands where one element is missing from exactly one operand, plus lists of MIXED dynamic types (1, int64(1), 1.0, the string 1, nil, ...) through the interface{} family; " +
 					"(a) membership/no-duplicate/order laws evaluated through the API for non-empty operands at every level, (b) every generic function/method against its interface{} twin on the same data for all operands incl. nil and empty. distinct_nontrivial = enumerated (operation, operand tuple) cases, distinct by construction (law cases: non-empty operands only)",
 				Assumptions: []string{"laws are only required for non-empty operands (statement); Minus keeps duplicates of its first operand (not a set-valued result)",
 					"twin comparison ignores set values that differ by design (zero vs true/nil) and map iteration order; nil and empty sequences are equal",
@@ -830,6 +830,8 @@ func init() {
 			c05Large(e, c)
 			c05Pointers(e)
 			c05MixedTypes(e)
+			c05ForeignOperands(e, c05Lists(3))
+			c05ManyOperands(e)
 			// PRNG operands, longer lists
 			rng := c.Rng("c05")
 			var rl [][]int
